@@ -7,12 +7,20 @@ TRUSTED_BASE = [
     '`decide +kernel` over the whole generated table',
     'translate/schemes2tables.py: RUNS configure/configure_solver/setup_properties/get_equations of every scheme '
     'configuration of the current tree and emits Gen/Schemes.lean; its option grids are audited against the source on '
-    'every run (every self.<attr> in a branch condition and every bool/enumerated option must be an axis); validated on '
+    'every run (every self.<attr> in a branch condition and every bool/enumerated option must be an axis; every argument of '
+    'configure_solver on whose VALUE the method branches -- directly or through locals computed from it, other than the '
+    '`is None` default tests -- must be a solver axis: WCSPH integrator_cls); validated on '
     'every run by harness/c12.py, which describes the same configurations with the real code\'s own functions '
     '(Group.get_array_names, getfullargspec, property dicts) and compares with the model\'s decoded table entries',
     'hand-written model lean/PysphVerif/Model/SchemeNeeds.lean (closure of precomputed symbols, needs, the real '
     'checkers\' strict-subset / subset tests), tied by the same comparison (needs and verdicts are computed in Lean)',
     'the AST scan for dst.<name> reads in reduce / py_initialize / py_stage* (names of the ParticleArray API excluded)',
+    'the AST scan of the integrator\'s one_timestep for self.<member> uses and the reading of the members the template '
+    'integrator_cython.mako defines itself; compared on every grid point with the text the real helper pastes '
+    '(get_timestep_code) and the real get_stepper_method_wrapper_names(), and on every generated module with the members '
+    'the generated cdef class Integrator really defines',
+    'Model withExtra = the stepper-dict construction every shipped configure_solver uses (caller\'s dict first, defaults for '
+    'the arrays not mentioned); tied on ~1200 history checkpoints per run against the real integrator.steppers',
     'the AST scan for index uses of array arguments (element inside another subscript, range bound, assigned to a local '
     'declared int/long/...; cast() and other calls are boundaries; an aliased array argument makes the translator fail); '
     'validated on every run against Cython\'s own type checker: the real code generator is run with every array typed '
@@ -27,6 +35,12 @@ ASSUMPTIONS = [
     'EDACScheme without an inlet/outlet manager (its arrays and equations belong to C16); '
     'ElasticSolidsScheme (no setup_properties) and tools.ParticlePacking are outside the quantifier',
     'numeric options enter the grid as zero / positive where the code branches on them; other numbers are fixed',
+    'configure_solver arguments: integrator_cls is an axis where a scheme branches on it (WCSPH: default / TVDRK3 / EPEC); '
+    'extra_steppers is exercised as None / {} / {wall: a user stepper that needs x and u} (theorem for every admissible dict); '
+    'kernel is left at the default (MAGMA2/TSPH/PSPH only copy the number kernel.fkern)',
+    'histories (reused scheme objects, argument objects shared between calls) are execution of a sample (~600 per quick run: '
+    'every option / solver axis flipped alone between its values + random pairs, as `reconf` on one object and as `shared` '
+    'between two), not proof; a scheme is re-configured with Scheme.configure(**options) (EDAC inviscid_solids: [] for none)',
     'CPU (cython) backend, serial',
     '"a short run leaves all properties finite" is execution of a stratified sample, not proof: initial evaluation + 3 steps on a '
     'uniform lattice with h = hdx*dx (ideal-gas schemes: e, p and the pilot h0 = h; walls where the configuration has solids, with '
@@ -45,7 +59,10 @@ DESIGN_REF = '6/C12'
 TECHNIQUE = 'Lean 4 proof by exhaustive generated table (regenerated from the source every run) + validation of the extraction + direct oracle on the real checkers, code generator and a compiled sample'
 LEVEL_TEXT = ("Lean 4 theorems: all_configs_complete / all_option_combinations_complete / all_configs_accepted / "
               "all_configs_index_types_ok (every array argument whose elements are used as an index has an integer known "
-              "type; typesOk proved sound, its index part exact) over the "
+              "type; typesOk proved sound, its index part exact) / all_configs_stages_provided (every stage the integrator's "
+              "one_timestep drives is a wrapper some chosen stepper provides; stagesOk proved exact) / "
+              "all_configs_complete_with_extra_steppers (for EVERY caller-supplied extra_steppers dict whose steppers find their "
+              "properties: complete; stages still provided when the fluid is left to the scheme) over the "
               "WHOLE table of scheme configurations (17 scheme classes, ~20 600 grid points = options x dim x solids x clean), "
               "decided by the kernel and lifted by complete_of_check (check_sound / check_complete, proved for every table, "
               "kind list and body), with the precomputed-symbol closure proved to be exactly the reachable set and every "
@@ -53,7 +70,10 @@ LEVEL_TEXT = ("Lean 4 theorems: all_configs_complete / all_option_combinations_c
               "every run by running the schemes; the harness validates the extraction against the real code's own "
               "functions and evaluates the property directly on the real checkers / code generator / known types for "
               "every grid point, generates and Cython-translates a covering sample (every scheme, every option value), "
-              "and compiles + runs a stratified sample on realistic lattices in open and periodic domains (all workers under a "
+              "runs ~600 histories (scheme object re-configured; argument objects shared between two schemes; extra_steppers "
+              "None / {} / user wall steppers) whose every checkpoint must equal the model's withExtra answer and pass the oracle, "
+              "and compiles + runs a stratified sample (every value of every configure_solver axis on every run, half of the "
+              "configurations reached through a re-configuration history) on realistic lattices in open and periodic domains (all workers under a "
               "process runner that reports a killed worker as a failure of its configuration).")
 LEVEL_NOTE = ("Proof for the tree the table was generated from (the quantifier is a finite table). Trusted: Lean kernel; the "
               "translator and its grid audit (validated each run); the AST scan for dst.<name> reads; plain arrays named "
